@@ -14,6 +14,7 @@ import (
 	"golang.org/x/exp/rand"
 
 	"verif/internal/fw"
+	"verif/internal/hook"
 )
 
 // C05 — dice are unbiased for every number of sides.
@@ -220,8 +221,22 @@ func c05Stat(t c05Test, draws int, seed uint64) (float64, string) {
 		cnt := 0
 		prev := int64(0)
 		rounds := draws / 40
+		// provenance: every die of this seeded context must come from the context's own generator,
+		// also the very first one when it is rolled inside a function or computed value
+		ctxSrc := vm.RandSrc
+		foreign := ""
+		hook.Set(&hook.Monitor{OnRoll: func(src *rand.PCGSource, sides ds.IntType, mode int, result ds.IntType, family string) {
+			if src != ctxSrc {
+				foreign = fmt.Sprintf("a %s die of a seeded context was not drawn from the context's generator (source %p, context %p)", family, src, ctxSrc)
+			}
+		}})
+		defer hook.Set(nil)
+		order := []string{"[d%[1]d, fd(), cd, d%[1]d, fd(), cd]", "[fd(), d%[1]d, cd, fd(), cd, d%[1]d]", "[cd, fd(), d%[1]d, cd, d%[1]d, fd()]"}[seed%3]
 		for i := 0; i < rounds; i++ {
-			if err := vm.Run(fmt.Sprintf("[d%d, fd(), cd, d%d, fd(), cd]", n, n)); err != nil {
+			if i == 1 && foreign != "" {
+				return 0, foreign
+			}
+			if err := vm.Run(fmt.Sprintf(order, n)); err != nil {
 				return 0, "run failed: " + err.Error()
 			}
 			arr, ok := vm.Ret.ReadArray()
@@ -478,7 +493,7 @@ func c05Case(w *fw.W, idx int, r *fw.Rand) {
 		// are still successive draws of ONE generator, so on a 2^62-sided die no face may ever
 		// come up twice (chance < 1e-9 for the ~80000 dice of a case).
 		seen := map[int64]int{}
-		const G, K, rounds = 16, 100, 25
+		const G, K, rounds = 16, 100, 12
 		dup := ""
 		for round := 0; round < rounds && dup == ""; round++ {
 			if round%2 == 0 {
@@ -503,6 +518,10 @@ func c05Case(w *fw.W, idx int, r *fw.Rand) {
 					<-start
 					for k := 0; k < K; k++ {
 						if vm != nil {
+							if g%8 == 3 {
+								// other unseeded work of the same host in between: array random methods
+								_ = vm.Run("xs = [1,2,3,4,5,6,7,8]; xs.shuffle(); xs.rand()")
+							}
 							if err := vm.Run(fmt.Sprintf("d%d + d%d * 0", t.n, t.n)); err == nil {
 								v, _ := vm.Ret.ReadInt()
 								res[g] = append(res[g], int64(v))
@@ -630,9 +649,11 @@ func c05Case(w *fw.W, idx int, r *fw.Rand) {
 
 func init() {
 	fw.Register(&fw.Prop{
-		ID:     "C05",
-		NCases: func(tier string) int { return len(c05Plan(tier)) },
-		Run:    c05Case,
+		ID:       "C05",
+		HangWall: 120,
+		HangCPU:  600, // the fallback family runs 16 goroutines at once
+		NCases:   func(tier string) int { return len(c05Plan(tier)) },
+		Run:      c05Case,
 		Floors: func(tier string) map[string]int64 {
 			return map[string]int64{"stat_tests": 150, "mode_checks": 50, "consume_checks": 40, "draws": 30000000}
 		},
